@@ -56,3 +56,32 @@ def pack_rec(timestamp, args, tid, debugid, cpuid=0, unused=0):
 def pack_rec_data(timestamp, data, tid, debugid, cpuid=0, unused=0):
     assert len(data) == 32
     return to_le(timestamp, 8) + data + to_le(tid, 8) + to_le(debugid, 4) + to_le(cpuid, 4) + to_le(unused, 8)
+
+
+# ------------------------------------------------------------------------------ containers
+RAW_VERSION2 = b'\x00\x02\xaa\x55'
+RAW_VERSION3 = b'\x00\x03\xaa\x55'
+
+
+def threadmap_entry(tid, pid, name):
+    """kd_threadmap (64-bit): uintptr_t thread; int valid(pid); char command[20] (NUL-terminated, strlcpy)"""
+    assert isinstance(name, bytes) and len(name) <= 19 and b'\x00' not in name
+    return to_le(tid, 8) + to_le(pid, 4) + name + bytes(20 - len(name))
+
+
+def v2_file(threads, pad, records, is_64bit=1, tick_frequency=24000000):
+    """version-2 dump as the parser documents it: version, thread count, 12 reserved bytes, is_64bit, tick frequency,
+    0x100 reserved bytes, thread map, zero padding, records"""
+    b = RAW_VERSION2 + to_le(len(threads), 4) + bytes(8) + bytes(4) + to_le(is_64bit, 4) + to_le(tick_frequency, 8)
+    b = b + bytes(0x100)
+    for tid, pid, name in threads:
+        b = b + threadmap_entry(tid, pid, name)
+    b = b + bytes(pad)
+    for r in records:
+        b = b + r
+    return b
+
+
+def fold_threadmap(threads):
+    """the tables a thread map declares: later entries win -> (tid->pid, pid->name) as association lists"""
+    return [(t, p) for t, p, _ in threads], [(p, n.decode()) for _, p, n in threads]
